@@ -301,12 +301,12 @@ def ref_tables_code(spec, want_hash=False):
                 by = f["by"][a]
                 if a == "hash":
                     if want_hash:
-                        out.append(f' {{ fn __call<HH: ::core::hash::Hasher>(f: impl Fn(&{ty}, &mut HH), x: &{ty}, h: &mut HH) {{ f(x, h) }} let mut l = ::std::vec::Vec::new(); for a in &d {{ let mut h = ::dxrt::RecHasher::new(); __call({by}, a, &mut h); l.push(h.take()); }} ::dxrt::ev!("tab", "f" => "{fid}", "src" => "by:hash", "op" => "hash", "l" => l); }}')
+                        out.append(f' {{ fn __call<HH: ::core::hash::Hasher>(f: impl ::core::ops::Fn(&{ty}, &mut HH), x: &{ty}, h: &mut HH) {{ f(x, h) }} let mut l = ::std::vec::Vec::new(); for a in &d {{ let mut h = ::dxrt::RecHasher::new(); __call({by}, a, &mut h); l.push(h.take()); }} ::dxrt::ev!("tab", "f" => "{fid}", "src" => "by:hash", "op" => "hash", "l" => l); }}')
                     continue
                 conv, sig = {"ord": ("::dxrt::ord_c", "::core::cmp::Ordering"),
                              "partial_ord": ("::dxrt::pord_c", "::core::option::Option<::core::cmp::Ordering>"),
-                             "eq": ("::dxrt::bool_c", "bool"), "partial_eq": ("::dxrt::bool_c", "bool")}[a]
-                out.append(f' {{ fn __call(f: impl Fn(&{ty}, &{ty}) -> {sig}, x: &{ty}, y: &{ty}) -> {sig} {{ f(x, y) }} let mut s = ::std::string::String::new(); for a in &d {{ for b in &d {{ s.push({conv}(__call({by}, a, b))); }} }} ::dxrt::ev!("tab", "f" => "{fid}", "src" => "by:{a}", "op" => "by", "m" => s); }}')
+                             "eq": ("::dxrt::bool_c", "::core::primitive::bool"), "partial_eq": ("::dxrt::bool_c", "::core::primitive::bool")}[a]
+                out.append(f' {{ fn __call(f: impl ::core::ops::Fn(&{ty}, &{ty}) -> {sig}, x: &{ty}, y: &{ty}) -> {sig} {{ f(x, y) }} let mut s = ::std::string::String::new(); for a in &d {{ for b in &d {{ s.push({conv}(__call({by}, a, b))); }} }} ::dxrt::ev!("tab", "f" => "{fid}", "src" => "by:{a}", "op" => "by", "m" => s); }}')
             out.append("}")
     return "\n".join(out)
 
@@ -323,7 +323,7 @@ def dummy_impls(spec, name="Ty"):
     out = []
     for t in sorted(need):
         if t == "PartialEq":
-            out.append(f"impl{g} ::core::cmp::PartialEq for {name}{ga} {{ fn eq(&self, _: &Self) -> bool {{ true }} }}")
+            out.append(f"impl{g} ::core::cmp::PartialEq for {name}{ga} {{ fn eq(&self, _: &Self) -> ::core::primitive::bool {{ true }} }}")
         elif t == "Eq":
             out.append(f"impl{g} ::core::cmp::Eq for {name}{ga} {{}}")
         elif t == "PartialOrd":
